@@ -1659,31 +1659,7 @@ func ruleOperationRecover(c *Ctx, rule string) {
 				n++
 				c.Funcs[funcName(fn)] = true
 				key := fmt.Sprintf("%s/Operation#%d", funcName(fn), n)
-				recovers := false
-				for _, bb := range fn.Blocks {
-					for _, in := range bb.Instrs {
-						d, ok := in.(*ssa.Defer)
-						if !ok {
-							continue
-						}
-						var df *ssa.Function
-						if mc, ok := d.Call.Value.(*ssa.MakeClosure); ok {
-							df, _ = mc.Fn.(*ssa.Function)
-						} else {
-							df = d.Call.StaticCallee()
-						}
-						if df == nil {
-							continue
-						}
-						for _, db := range df.Blocks {
-							for _, di := range db.Instrs {
-								if rc, ok := di.(*ssa.Call); ok && builtinCall(rc, "recover") != nil {
-									recovers = true
-								}
-							}
-						}
-					}
-				}
+				recovers := protectedByRecover(fn, srcFuncs(sp), 0)
 				if recovers {
 					c.ok(rule, key, call.Pos(), "the operation runs in a function that recovers a panic into an error result")
 				} else {
@@ -1695,6 +1671,57 @@ func ruleOperationRecover(c *Ctx, rule string) {
 	if n == 0 {
 		c.und(rule, "concurrent/Operation", token.NoPos, "no Operation call found")
 	}
+}
+
+// protectedByRecover: fn defers a function that calls recover, or fn is a private function every call of which
+// is made (as a plain call, on the same goroutine) from a function that is.
+func protectedByRecover(fn *ssa.Function, all []*ssa.Function, depth int) bool {
+	for _, bb := range fn.Blocks {
+		for _, in := range bb.Instrs {
+			d, ok := in.(*ssa.Defer)
+			if !ok {
+				continue
+			}
+			var df *ssa.Function
+			if mc, ok := d.Call.Value.(*ssa.MakeClosure); ok {
+				df, _ = mc.Fn.(*ssa.Function)
+			} else {
+				df = d.Call.StaticCallee()
+			}
+			if df == nil {
+				continue
+			}
+			for _, db := range df.Blocks {
+				for _, di := range db.Instrs {
+					if rc, ok := di.(*ssa.Call); ok && builtinCall(rc, "recover") != nil {
+						return true
+					}
+				}
+			}
+		}
+	}
+	if depth > 3 || fn.Object() == nil || fn.Object().Exported() {
+		return false
+	}
+	sites := 0
+	for _, g := range all {
+		for _, b := range g.Blocks {
+			for _, ins := range b.Instrs {
+				ci, ok := ins.(ssa.CallInstruction)
+				if !ok || ci.Common().StaticCallee() != fn {
+					continue
+				}
+				sites++
+				if _, plain := ins.(*ssa.Call); !plain {
+					return false // started as a goroutine or deferred: nothing above it on the stack recovers
+				}
+				if !protectedByRecover(g, all, depth+1) {
+					return false
+				}
+			}
+		}
+	}
+	return sites > 0
 }
 
 // ---- intronperpair / locpairwise (C20) ----
